@@ -12,8 +12,15 @@ IDENT_METHODS = {"ravel", "copy", "flatten", "reshape", "astype", "to_numpy", "s
 IDENT_ATTRS = {"values"}
 
 
-def arg(ctx, call, name, names=None):
-    return contracts.argument(ctx.pkg, call, name, names)
+def arg(ctx, call, name, names=None, caller=None):
+    if isinstance(caller, str):
+        caller = ctx.pkg.functions.get(caller)
+    return contracts.argument(ctx.pkg, call, name, names, caller)
+
+
+def is_reversed(t, base):
+    """t is base[::-1] (possibly already expanded to (base[1], base[0]))"""
+    return t == ("sub", base, ("slice", NONE, NONE, const(-1))) or (t[0] in ("tuple", "list") and t[1] == (mk_sub(base, const(1)), mk_sub(base, const(0))))
 
 
 def unwrap(t, funcs=IDENT_FUNCS, methods=IDENT_METHODS):
